@@ -12,6 +12,21 @@ Theorem C29_total_order_modelled_ir :
 Proof. exact C29_total_order. Qed.
 Print Assumptions C29_total_order_modelled_ir.
 
+(* enumerate on a top-level OR Atomic-located stream (across_ticks, atomic()..end_atomic(),
+   all_ticks_atomic): emitted as enumerate::<'static> ([lifetime_of LocAtomic = LStatic]), so the
+   numbering continues across tick boundaries: sequence equality for every partition *)
+Theorem C29_enumerate_static_tickinv : forall xss,
+  lifetime_of LocAtomic = LStatic /\
+  concat (op_run (lifetime_of LocAtomic) 0%N (run_items enum_istep) xss) = enum_from 0 (concat xss).
+Proof. intros. split; [reflexivity | apply enumerate_tickinv]. Qed.
+Print Assumptions C29_enumerate_static_tickinv.
+
+(* ... whereas a 'tick enumerate restarts at every tick: the two differ as soon as the input is
+   split over two non-empty ticks *)
+Example C29_enumerate_tick_would_restart :
+  concat (op_run LTick 0%N (run_items enum_istep) [[VN 7]; [VN 8; VN 9]]) <> enum_from 0 [VN 7; VN 8; VN 9].
+Proof. vm_compute. discriminate. Qed.
+
 (* keyed aggregation (fold_keyed / reduce_keyed): the value of key k is the fold of k's
    subsequence [proj k] of the input, None iff k never occurs *)
 Theorem C29_keyed_fold_per_key :
